@@ -51,7 +51,7 @@ ASSUMPTIONS = [
 ]
 
 POLICIES = ["LRU", "LFU", "TTL", "FIFO", "Random", "SLRU", "SampledLRU", "Clock", "TwoQ"]
-OPS = ["get", "get", "put", "put", "del", "inv", "invall", "flush"]
+OPS = ["get", "get", "get", "put", "put", "put", "del", "inv", "invall", "flush"]
 
 
 def _clamp(x, lo, hi):
@@ -95,6 +95,10 @@ def drain(policy):
     return out
 
 
+class _Abort(Exception):
+    """raised by harness-side monitors to stop a run whose verdict is already recorded (avoids unbounded loops)"""
+
+
 def _ov(a, b):
     """closed-interval overlap of two ops (unfinished = open ended)"""
     ae = a.end if a.end is not None else POS_INF
@@ -116,7 +120,7 @@ def cached_strategy(tier):
     return st.fixed_dictionaries({
         "policy": st.integers(0, 8),
         "wt": st.booleans(),
-        "cap": st.integers(1, 3),
+        "cap": st.sampled_from([1, 1, 2, 2, 3]),
         "nkeys": st.integers(2, 5),
         "rl": st.integers(1, 6), "wl": st.integers(1, 6), "cl": st.integers(0, 1),
         "ttl": st.sampled_from([2, 8, 40]),
@@ -215,6 +219,12 @@ def run_cached(case, obl, safe=False):
         k = orig_evict()
         if k is not None:
             stats["evictions"] += 1
+            if k not in cs.get_cached_keys():
+                # the policy hands out a key the cache does not hold: the eviction loop of _cache_put would never end
+                add(f"{P}/{obl}/policy-keys-diverge/{pol_name}", f"evict() returned {k!r}, cache holds {sorted(cs.get_cached_keys())}")
+                stats["abort"] = stats.get("abort", 0) + 1
+                if stats["abort"] > 50:
+                    raise _Abort()
             if k in cs.get_dirty_keys():
                 dirty_evicted.append((cs.now.nanoseconds, k))
         return k
@@ -269,7 +279,10 @@ def run_cached(case, obl, safe=False):
         sim.schedule(e)
     probe = SimProbe(sim, max_per_instant=5000, max_events=50000, log=False,
                      on_event=lambda ev: check_inv(f"t={ev.time.nanoseconds / TICK:g} after an engine event"))
-    outcome = probe.run()
+    try:
+        outcome = probe.run()
+    except _Abort:
+        outcome = "aborted"
     if outcome == "spin":
         add(f"{P}/{obl}/spin", f"more than 5000 events at one instant t={probe.spin_at}")
     if outcome != "done":
@@ -361,7 +374,7 @@ def ex_cached_safe(case):
 
 
 # =============================================================================== MultiTierCache
-MT_OPS = ["get", "get", "get", "put", "put", "del", "inv", "invall", "tget"]
+MT_OPS = ["get", "get", "get", "put", "put", "del", "inv", "invall", "tget", "tget", "tget"]
 
 
 def multitier_strategy(tier):
@@ -371,7 +384,7 @@ def multitier_strategy(tier):
         "nkeys": st.integers(2, 5),
         "rl": st.integers(1, 6), "wl": st.integers(1, 6),
         "seed": st.integers(0, 50),
-        "pre": st.lists(st.integers(0, 4), max_size=3),
+        "pre": st.lists(st.integers(0, 4), min_size=1, max_size=4),
         "workers": workers_strategy(tier, MT_OPS, extra=st.integers(0, 2)),
     })
 
@@ -422,6 +435,24 @@ def run_multitier(case, obl, safe=False):
             seen.add(sig)
             r.add(sig, detail)
 
+    aborts = [0]
+
+    def monitor(ti, t, name, pol):
+        orig = pol.evict
+
+        def evict():
+            k = orig()
+            if k is not None and k not in t.get_cached_keys():
+                add(f"{P}/{obl}/policy-keys-diverge/{name}", f"tier L{ti + 1}: evict() returned {k!r}, tier holds {sorted(t.get_cached_keys())}")
+                aborts[0] += 1
+                if aborts[0] > 50:
+                    raise _Abort()
+            return k
+        pol.evict = evict
+
+    for ti, t in enumerate(tiers):
+        monitor(ti, t, pols[ti][0], pols[ti][1])
+
     def check_inv(where):
         for ti, t in enumerate(tiers):
             held = t.get_cached_keys()
@@ -451,13 +482,16 @@ def run_multitier(case, obl, safe=False):
             return None
         return None
 
-    harness, log, start_events = build_harness("h", plan, run_op, after_op=lambda rec: check_inv(f"after {rec!r}"))
+    harness, log, start_events = build_harness("h", plan, run_op, after_op=lambda rec: check_inv(f"after {rec!r}"), seq=Seq())
     sim = Simulation(entities=[kv, mt, harness] + tiers, end_time=Instant((t_close + (nkeys + 2) * per_op + 50) * TICK))
     for e in start_events():
         sim.schedule(e)
     probe = SimProbe(sim, max_per_instant=5000, max_events=50000, log=False,
                      on_event=lambda ev: check_inv(f"t={ev.time.nanoseconds / TICK:g} after an engine event"))
-    outcome = probe.run()
+    try:
+        outcome = probe.run()
+    except _Abort:
+        outcome = "aborted"
     if outcome == "spin":
         add(f"{P}/{obl}/spin", f"more than 5000 events at one instant t={probe.spin_at}")
     if outcome != "done":
@@ -470,14 +504,17 @@ def run_multitier(case, obl, safe=False):
         elif o.op == "del":
             writes[o.key].append(Write(o.key, None, o.start, o.end if o.end is not None else POS_INF, o))
     gets = [o for o in log if o.op in ("get", "tget")]
-    fill_overlap = any(_ov(g, w.src) for g in gets for w in writes[g.key] if w.src is not None)
-    ww_overlap = any(a.src is not None and b.src is not None and a is not b and _ov(a.src, b.src)
+    def sov(a, b):
+        return seq_overlap(a.ss, a.se, b.ss, b.se)
+
+    fill_overlap = any(sov(g, w.src) for g in gets for w in writes[g.key] if w.src is not None)
+    ww_overlap = any(a.src is not None and b.src is not None and a is not b and sov(a.src, b.src)
                      for k in keys for a in writes[k] for b in writes[k])
 
     def classify(k, upto):
-        if any(g.key == k and g.start <= upto and _ov(g, w.src) for g in gets for w in writes[k] if w.src is not None):
+        if any(g.key == k and g.start <= upto and sov(g, w.src) for g in gets for w in writes[k] if w.src is not None):
             return "fill-races-write"
-        if any(a.src is not None and b.src is not None and a is not b and _ov(a.src, b.src) for a in writes[k] for b in writes[k]):
+        if any(a.src is not None and b.src is not None and a is not b and sov(a.src, b.src) for a in writes[k] for b in writes[k]):
             return "write-races-write"
         return "other"
 
@@ -536,7 +573,7 @@ def ex_softttl(case, obl="softttl"):
 
     r = Result()
     nkeys = _clamp(case.get("nkeys", 1), 1, 4)
-    rl, wl, cl = _clamp(case.get("rl", 2), 1, 6), _clamp(case.get("wl", 2), 1, 6), _clamp(case.get("cl", 0), 0, 1)
+    rl, wl, cl = _clamp(case.get("rl", 2), 2, 6), _clamp(case.get("wl", 2), 1, 6), _clamp(case.get("cl", 0), 0, 1)
     soft = _clamp(case.get("soft", 0), 0, 40)
     hard = soft + _clamp(case.get("extra", 0), 0, 40)
     cap = case.get("cap")
@@ -577,6 +614,9 @@ def ex_softttl(case, obl="softttl"):
         """drive sc.get() and note (from the public stats counter, read right after the synchronous first step)
         whether this read joined an in-flight refresh"""
         gen = sc.get(rec.key)
+        ent = getattr(sc, "_cache", {}).get(rec.key)            # anchored state: CacheEntry.cached_at
+        cached_at = getattr(getattr(ent, "cached_at", None), "nanoseconds", None)
+        rec.val = None if cached_at is None else sc.now.nanoseconds - cached_at      # age of the held entry at read start
         before = sc.stats.coalesced_requests
         try:
             y = next(gen)
@@ -645,6 +685,12 @@ def ex_softttl(case, obl="softttl"):
     for g in log:
         if g.op != "get" or not g.done():
             continue
+        if g.val is not None and g.val >= hard * TICK and g.end - g.start < rl * TICK and g.res is not None:
+            # module table: "Expired: age >= hard_ttl -> block until fresh data fetched"; a reply faster than a backing
+            # read can only have come from the expired entry
+            add(f"{P}/{obl}/expired-entry-served-from-cache",
+                f"{g!r}: held entry was {g.val / TICK:g} ticks old (hard_ttl {hard}) yet the read returned after "
+                f"{(g.end - g.start) / TICK:g} ticks (< read latency {rl})")
         own = max((o.end for o in log if o.op == "put" and o.key == g.key and o.done() and o.end < g.start), default=NEG_INF)
         lo_ttl = g.start - hard * TICK
         ok = values_in(g.key, max(lo_ttl, own), g.end)
